@@ -1,5 +1,4 @@
-\* exhaustive (quick): every ledger of <= 3 postings from a pool of 10, 198 BALANCES / JOURNAL shapes;
-\* every directive list of <= 3 of 9 directives, 14 PRINT filters
+\* non-vacuity: the expansion / mechanism deliberately broken (order_by_name); TLC must violate DenoteIsMeaning
 CONSTANTS
   Headers <- HeadersDef
   Pool <- Pool10
@@ -10,7 +9,7 @@ CONSTANTS
   PrintShapes <- PrintShapesDef
   KnownStrings <- KnownStringsDef
   KnownPats <- KnownPatsDef
-  Variant = "no_sortkey_group"
+  Variant = "order_by_name"
 INIT Init
 NEXT Next
 INVARIANTS DenoteIsMeaning WellFormed
